@@ -207,3 +207,49 @@ func HarnessC20NoCrash() {
 	zzASCII(s)
 	zzParse(s)
 }
+
+// HarnessC20Sections: a configuration with TWO of the sections the writer knows (any pair, "default" - written without
+// a header - included), each holding a string key (symbolic text) and an integer key, goes through writeTOMLSections
+// and the parser: both sections come back with exactly their own keys and values (nothing migrates between sections,
+// the header-less default section is read back as "default").
+func HarnessC20Sections() {
+	names := []string{"default", "compiler", "build", "cache", "external", "neighbors", "dependencies"}
+	a := verifrt.Choice("sa", len(names))
+	b := verifrt.Choice("sb", len(names))
+	verifrt.Assume(a < b)
+	n := verifrt.Choice("n", 3)
+	v := verifrt.String("v", n)
+	zzASCII(v)
+	zzWritable(v)
+	w := verifrt.String("w", 1)
+	zzASCII(w)
+	zzWritable(w)
+	x := verifrt.Int("x")
+	verifrt.Assume(x > -1000 && x < 1000)
+	data := TOMLData{names[a]: TOMLTable{"name": v, "count": x}, names[b]: TOMLTable{"name": w, "flag": true}}
+	f := verifrt.CaptureFile()
+	err := writeTOMLSections(f, data, nil)
+	text := verifrt.TakeOutput()
+	verifrt.Assert(err == nil, "writer failed")
+	got, perr := zzParse(text)
+	verifrt.Assert(perr == nil, "parser rejects the writer's output for a two-section configuration")
+	if perr != nil {
+		return
+	}
+	verifrt.Assert(len(got) == 2, "round trip changed the number of sections")
+	ga, oka := got[names[a]]
+	gb, okb := got[names[b]]
+	verifrt.Assert(oka && okb, "a section is lost or renamed by the round trip")
+	if !oka || !okb {
+		return
+	}
+	verifrt.Assert(len(ga) == 2 && len(gb) == 2, "a key moved between sections or was lost")
+	sv, isS := ga["name"].(string)
+	verifrt.Assert(isS && sv == v, "string value of the first section changed")
+	iv, isI := ga["count"].(int)
+	verifrt.Assert(isI && iv == x, "integer value of the first section changed")
+	sw, isW := gb["name"].(string)
+	verifrt.Assert(isW && sw == w, "string value of the second section changed")
+	bv, isB := gb["flag"].(bool)
+	verifrt.Assert(isB && bv, "boolean value of the second section changed")
+}
